@@ -17,7 +17,7 @@ def classify_flow(g, at_node, expr, defs_seen=None, depth=0):
     returns a set of tags: 'source' (the answer, identity-preserving), 'transformed', 'new' (the new entry),
     'other'."""
     defs_seen = defs_seen or set()
-    if depth > 8:
+    if depth > 24:
         return set(['other'])
     if isinstance(expr, ast.Name):
         out = set()
@@ -137,7 +137,10 @@ def r18_1b(run):
                 pre_defs = set(r.id for r in reaching_defs(g, st, pre))
                 ok = len(rds) == 1 and rds[0].kind == 'stmt'
                 why = '%d definitions of %s reach the re-listing loop' % (len(rds), it.id)
-                if ok:
+                if it.id == pre and set(r.id for r in rds) == pre_defs:
+                    # the very list that was stripped (by a comprehension, i.e. into a new list) is the one re-listed
+                    ok = True
+                elif ok:
                     c0 = rds[0]
                     v = def_value(c0, it.id)
                     srcv = v
@@ -260,7 +263,7 @@ def r18_4(run):
         ok = len(trys) == 1
         if ok:
             t = trys[0]
-            okret = any(isinstance(x, ast.Return) for b in t.body for x in ast.walk(b))
+            okret = any(isinstance(x, ast.Return) for b in list(t.body) + list(t.orelse) for x in ast.walk(b))      # (try body, or its else: clause)
             run.ob('R18.4', cn, t, 'the first port that connects is used (return inside the loop)', okret, slot='return-on-success', message='no return in the try body')
             hs = t.handlers
             types = [dotted(h.type) if h.type is not None else None for h in hs]
@@ -286,6 +289,24 @@ def r18_4(run):
         run.ob('R18.4', cn, lp.ast, 'well-known ports are tried only without an explicit SOCKS endpoint', ok, slot='fallback-only', message='fallback loop not guarded by socks_endpoint is None')
 
 
+def _token_list(u, e):
+    """is e (a name) the list of first tokens of the configured lines: [x.split()[0] for x in ...]?"""
+    if isinstance(e, (ast.ListComp, ast.SetComp)):
+        return '.split()[0]' in src(e.elt)
+    if not isinstance(e, ast.Name):
+        return False
+    d = single_def(local_defs(u), e.id)
+    return bool(d and d[0] == 'expr' and isinstance(d[1], (ast.ListComp, ast.SetComp)) and '.split()[0]' in src(d[1].elt))
+
+
+def _no_match_established(u, g, n):
+    """a dominating test has established that no configured line matches: `not any(<token == wanted> ...)`, or
+    `wanted not in <list of first tokens>`"""
+    if any(lab == 'F' for _, lab in g.guarded_by(n, lambda t: isinstance(t, ast.Call) and dotted(t.func) == 'any')):
+        return True
+    return established(g, n, 'member', lambda t: _token_list(u, t.comparators[0]), positive=False)
+
+
 def r18_5(run):
     tc = run.idx.cls('TorConfig', 'torconfig')
     se = run.idx.find_method(tc, 'socks_endpoint')
@@ -294,11 +315,13 @@ def r18_5(run):
     def match_forms(u):
         forms = []
         for n in walk_unit(u):
-            if isinstance(n, ast.Compare) and len(n.ops) == 1 and ('SocksPort' in src(n) or '.split()[0]' in src(n) or
+            if isinstance(n, ast.Compare) and len(n.ops) == 1 and ('SocksPort' in src(n) or '.split()[0]' in src(n) or _token_list(u, n.comparators[0]) or
                                                                    any(isinstance(x, ast.Name) and x.id in ('port_config', 'port') for x in ast.walk(n))):
                 l, r = src(n.left), src(n.comparators[0])
                 if isinstance(n.ops[0], ast.Eq) and '.split()[0]' in l + r:
                     forms.append(('token-eq', n))
+                elif isinstance(n.ops[0], (ast.In, ast.NotIn)) and _token_list(u, n.comparators[0]):
+                    forms.append(('token-eq', n))       # membership in the list of first tokens is token equality
                 elif isinstance(n.ops[0], ast.In) and not isinstance(n.left, ast.Constant):
                     forms.append(('substring', n))
         return forms
@@ -337,7 +360,7 @@ def r18_5(run):
     sv = g.nodes_where(lambda n: any(is_call_to(a, 'self.save') for a in node_asts(n)))
     ok = bool(app) and all(not g.escapes(a, lambda n: n in sv, exits=g.normal_exits()) for a in app)
     run.ob('R18.5', cs, cs.node, 'a port that is added is saved to Tor', ok, slot='append-then-save', message='SocksPort.append not followed by save() on every path')
-    okg = all(any(lab == 'F' for _, lab in g.guarded_by(a, lambda t: isinstance(t, ast.Call) and dotted(t.func) == 'any')) for a in app) if app else False
+    okg = all(_no_match_established(cs, g, a) for a in app) if app else False
     run.ob('R18.5', cs, cs.node, 'a port is added only when no existing entry matches', okg, slot='append-guard', message='SocksPort.append not guarded by the match test')
     # ... and nothing is sent to Tor when the port is already there: in both "use or add" entry points every save() lies behind
     # the same no-entry-matches test as the append (an unconditional save() pushes whatever else is pending in the TorConfig -
@@ -347,8 +370,7 @@ def r18_5(run):
         sv_ = gu.nodes_where(lambda n: any(isinstance(a, ast.Call) and callee_attr(a) == 'save' and dotted(receiver(a)) == recv for a in node_asts(n)))
         run.floor('R18.5', 'save() sites in %s' % u_.name, len(sv_), 1)
         for n in sv_:
-            gd = gu.guarded_by(n, lambda t: isinstance(t, ast.Call) and dotted(t.func) == 'any')
-            run.ob('R18.5', u_, n.ast, 'Tor is reconfigured only when no existing entry matches', any(lab == 'F' for _, lab in gd), slot='save-only-when-adding:%s' % u_.name,
+            run.ob('R18.5', u_, n.ast, 'Tor is reconfigured only when no existing entry matches', _no_match_established(u_, gu, n), slot='save-only-when-adding:%s' % u_.name,
                    message='%s calls save() also when the requested port is already configured: pending edits of the TorConfig (a port Tor refused earlier, a staged '
                            'removal) are sent although nothing needed adding' % u_.short)
     el = run.idx.unit('torconfig._endpoint_from_socksport_line')
